@@ -65,6 +65,8 @@ package dig
 //@ scan[C13:recover-sites] builtin recover <= (*dig.Scope).Invoke$1, (*dig.constructorNode).Call$3, (*dig.decoratorNode).Call$3
 //@ scan[C13:cycle-error-construction-sites,C05:cycle-error-construction-sites] allocs dig.errCycleDetected <= (*dig.Scope).cycleDetectedError, (*dig.constructorNode).Call, (dig.errCycleDetected).Error, dig.IsCycleDetected
 //@ scan[C13:panic-error-construction-sites] allocs dig.PanicError <= (*dig.Scope).Invoke$1, (*dig.constructorNode).Call$3, (*dig.decoratorNode).Call$3, (dig.PanicError).Format
+// the types that are dig.Error (the interface is sealed by writeMessage): a recovered panic is not among them
+//@ scan[C13:dig-error-type-set] methods writeMessage == dig.Error, dig.digError, dig.errArgumentsFailed, dig.errConstructorFailed, dig.errCycleDetected, dig.errInvalidGroupOption, dig.errInvalidInput, dig.errMissingDependencies, dig.errMissingTypes, dig.errParamGroupFailed, dig.errParamSingleFailed, dig.errProvide
 //@ scan[C13:unwrap-method-set] methods Unwrap == dig.errArgumentsFailed, dig.errConstructorFailed, dig.errInvalidInput, dig.errMissingDependencies, dig.errParamGroupFailed, dig.errParamSingleFailed, dig.errProvide
 //@ scan[C07:value-cache-write-sites,C01:value-cache-write-sites] mapwrites Scope.values <= (*dig.Scope).setValue
 //@ scan[C07:group-cache-write-sites,C10:group-cache-write-sites] mapwrites Scope.groups <= (*dig.Scope).submitGroupedValue
